@@ -87,7 +87,7 @@ CHECKS = {
             "Rocq/Coq proof (all flag sets x arbitrary source lists) + exhaustive differential correspondence over flags x explicit options",
             "DESIGN.md section 6 C12"),
     "C13": (True,
-            "Coq proofs on the fs-worker model: every turn of the repaired loop keeps 'own record = registered with the live watcher' for any three configuration reads (changes in the middle of a turn) and any failures; one turn over a stable configuration registers exactly the configured (path, mode) entries that were registered or whose attempt succeeds, with the configured kind, and an empty set releases the watcher; a blocked worker has started a turn after the latest change (change counter) for every interleaving; one error per failing attempt. Refutation witnesses for both repaired defects. PARTIAL: real notify backends are replaced by a recording watcher through the cfg hook. Changes are issued idle, from inside the n-th watch/unwatch call, and in rapid succession. Lost wake-ups: the order of the synchronisation operations of ConfigWatched::next and Config::signal_change is translated from config.rs and, for every interleaving of exactly that program with any number of concurrent signal_change calls, a worker asleep in next() with no notification in flight has seen the latest change (Fs/ConfigRace.v; the load-before-register order is refuted by a witness).",
+            "Coq proofs on the fs-worker model: every turn of the repaired loop keeps 'own record = registered with the live watcher' for any three configuration reads (changes in the middle of a turn) and any failures; one turn over a stable configuration registers exactly the configured (path, mode) entries that were registered or whose attempt succeeds, with the configured kind, and an empty set releases the watcher; a blocked worker has started a turn after the latest change (change counter) for every interleaving; one error per failing attempt. Refutation witnesses for both repaired defects. PARTIAL: real notify backends are replaced by a recording watcher through the cfg hook. Changes are issued idle, from inside the n-th watch/unwatch call, and in rapid succession. Lost wake-ups: the order of the synchronisation operations of ConfigWatched::next and Config::signal_change is translated from config.rs and, for every interleaving of exactly that program with any number of concurrent signal_change calls, a worker asleep in next() with no notification in flight has seen the latest change (Fs/ConfigRace.v; the load-before-register order is refuted by a witness). Reconfiguring from within a handler: Changeable / ChangeableFn are modelled (Fs/Changeable.v) with the call mode (function obtained, lock released, then called) and the clone mode (clones share the slot) translated from changeable.rs; proved: no script of replace / clone / nested calls deadlocks, a replacement from within a call leaves that invocation alone and is seen by the next call and through every clone; the two variants (call under the lock, snapshot clone) are refuted; random scripts run against the real ChangeableFn and the model.",
             'Trusted: Coq kernel, harness (recording notify::Watcher through the watchexec_verif factory hook). tokio Notify / RwLock semantics and the notify contract are modelled. No axioms.',
             'Rocq/Coq invariant + convergence proof over the worker turn + re-entrant differential harness',
             "DESIGN.md section 6 C13"),
